@@ -13,6 +13,22 @@ pub uninterp spec fn decl_of(n: Node) -> Result<Declaration, Seq<VErr>>;        
 #[verifier::external_body] pub fn child_at(c: &Children, k: usize) -> (r: Node) requires k < c.items@.len() ensures r == c.items@[k as int] { unimplemented!() }
 #[verifier::external_body] pub fn errs_append(a: &mut Vec<VErr>, b: &mut Vec<VErr>) ensures final(a)@.len() == old(a)@.len() + old(b)@.len() { unimplemented!() }
 pub struct Block(pub Vec<Declaration>);
+// ---- populate_file (parser.rs): the same at the level of a file
+pub struct FileV { pub decls: Ghost<Seq<Declaration>> }
+impl FileV { pub fn add_declaration(&mut self, d: Declaration) ensures final(self).decls@ == old(self).decls@.push(d) { self.decls = Ghost(self.decls@.push(d)); } }
+#[verifier::external_body] pub fn wipe_this_scope(n: &Node) { unimplemented!() }
+#[verifier::external_body] pub fn vpanic() requires false { unimplemented!() }
+// the declarations among the children, in order (the only other child the grammar gives a file is EOI)
+pub open spec fn count_decl(c: Seq<Node>) -> nat decreases c.len() {
+    if c.len() == 0 { 0 } else if has_rule(&c.last(), "declaration") { count_decl(c.drop_last()) + 1 } else { count_decl(c.drop_last()) }
+}
+// some top-level statement has diagnostics
+pub open spec fn any_bad(c: Seq<Node>) -> bool decreases c.len() {
+    if c.len() == 0 { false } else { any_bad(c.drop_last()) || (has_rule(&c.last(), "declaration") && decl_of(c.last()) is Err) }
+}
+pub proof fn lemma_dc_step(c: Seq<Node>, k: int) requires 0 <= k < c.len()
+    ensures c.subrange(0, k + 1).drop_last() == c.subrange(0, k), c.subrange(0, k + 1).last() == c[k]
+{ assert(c.subrange(0, k + 1).drop_last() =~= c.subrange(0, k)); }
 """
 
 
@@ -34,7 +50,41 @@ def build(repo):
         Rule("R9", "errors . is_empty ( )", "( errors . len ( ) == 0 )", why="Vec::is_empty"),
     ], log, "Parser::block")
     check_closed(b, "Parser::block")
-    gen = header(log, f"{FILE}: Parser::block") + prelude("parser.rs") + SPEC + f"""
+    PFILE = "compiler/src/parser.rs"
+    fp = src.fn(PFILE, "populate_file")
+    INVP = ("invariant verif_k <= verif_kids.items@.len(), verif_kids.items@ == node_children(&input), "
+            "forall|i: int| 0 <= i < verif_kids.items@.len() ==> has_rule(#[trigger] &verif_kids.items@[i], \"declaration\") || has_rule(&verif_kids.items@[i], \"EOI\"), "
+            "errors@.len() == 0 ==> result.decls@.len() == old(result).decls@.len() + count_decl(verif_kids.items@.subrange(0, verif_k as int)), "
+            "errors@.len() > 0 <==> any_bad(verif_kids.items@.subrange(0, verif_k as int)), "
+            "decreases verif_kids.items@.len() - verif_k,")
+    bp = translate(list(fp["body"]), parser_idioms() + [
+        Rule("R10", "input . user_data ( ) . wipe_this_scope ( ) ;", "wipe_this_scope ( & input ) ;", why="scope reset: abstract"),
+        Rule("R1", "let mut errors = vec ! [ ] ;", "let mut errors : Vec < VErr > = Vec :: new ( ) ;", why="type ascription"),
+        Rule("R2", "for child in input . children ( ) { $$body }", lambda bb: ["let verif_kids = node_kids ( & input ) ; let mut verif_k : usize = 0 ; while verif_k < verif_kids . items . len ( )", G(INVP),
+                                                                               "{ let child = child_at ( & verif_kids , verif_k ) ; verif_k += 1 ;", G("proof { lemma_dc_step(verif_kids.items@, verif_k as int - 1); }"), *bb["body"], "}",
+                                                                               G("proof { assert(verif_kids.items@.subrange(0, verif_kids.items@.len() as int) =~= verif_kids.items@); }")], count=1, why="for over the pest children -> indexed while"),
+        Rule("R6", "match child . as_rule ( ) { Rule :: declaration => $$a , Rule :: EOI => ( ) , _ => $$u , }",
+             "if node_has_rule ( & child , \"declaration\" ) { $$a } else if node_has_rule ( & child , \"EOI\" ) { } else { $$u }", why="match on the pest rule -> if chain in source order"),
+        Rule("R8", "unreachable ! $a", "vpanic ( )", why="unreachable!: a panic (R8: excluded by the grammar precondition)"),
+        Rule("R6", "Parser :: declaration ( child )", "parse_declaration ( child )", why="sub-parser abstract (keeps which child it parsed)"),
+        Rule("R13", "errors . append ( & mut e )", "errs_append ( & mut errors , & mut e )", why="Vec::append"),
+        Rule("R9", "errors . is_empty ( )", "( errors . len ( ) == 0 )", why="Vec::is_empty"),
+    ], log, "populate_file")
+    check_closed(bp, "populate_file")
+    gen = header(log, f"{FILE}: Parser::block; {PFILE}: populate_file") + prelude("parser.rs") + SPEC + f"""
+//@ OBL C03.file.every-statement
+#[verifier::loop_isolation(false)]
+pub fn populate_file(input: Node, result: &mut FileV) -> (r: Result<(), Vec<VErr>>)
+    requires forall|i: int| 0 <= i < node_children(&input).len() ==> has_rule(#[trigger] &node_children(&input)[i], "declaration") || has_rule(&node_children(&input)[i], "EOI"),     // grammar: file = {{ SOI ~ declaration* ~ EOI }}
+    ensures
+        // the file is accepted exactly when every top-level statement is
+        r is Ok <==> !any_bad(node_children(&input)),
+        r is Ok ==> final(result).decls@.len() == old(result).decls@.len() + count_decl(node_children(&input)),
+        r is Err ==> r->Err_0@.len() > 0,
+{{
+{render(bp, 1).replace("mut result", "result")}
+}}
+""" + f"""
 //@ OBL C03.block.every-statement
 #[verifier::loop_isolation(false)]
 pub fn block(input: Node) -> (r: Result<Block, Vec<VErr>>)
@@ -50,7 +100,8 @@ pub fn block(input: Node) -> (r: Result<Block, Vec<VErr>>)
 }} // verus!
 fn main() {{}}
 """
-    return gen, [Obl("C03.block.every-statement", ["C03", "C01", "C16"], fn="Parser::block", desc="Parser::block: accepted exactly when every statement is; an accepted block holds the statements in source order; a rejected one carries at least one diagnostic")], log
+    return gen, [Obl("C03.file.every-statement", ["C03", "C16"], fn="populate_file", desc="populate_file: a file is accepted exactly when every top-level statement is; none skipped"),
+                 Obl("C03.block.every-statement", ["C03", "C01", "C16"], fn="Parser::block", desc="Parser::block: accepted exactly when every statement is; an accepted block holds the statements in source order; a rejected one carries at least one diagnostic")], log
 
 
 UNITS = [VUnit("c03_block_parse", ["C03", "C01", "C16"], "a block is accepted only if every statement is", build)]
